@@ -226,7 +226,7 @@ def _walk_prologue(ex, st, post, result):
 contract(SD + 'TileWalker._walk', props=['C11', 'C12'],
          types=dict(cur_bbox='tuple[real,real,real,real]', levels='list[int]', current_level='int', all_subtiles='bool'),
          returns='none', default_callee='opaque',
-         inline=['step_down', 'step_forward', 'report_progress'], opaque=['_walk', 'already_processed'],
+         inline=['step_down', 'step_forward', 'report_progress'], opaque=['_walk', 'already_processed', '_filter_subtiles'],
          opaque_spec={'get_affected_level_tiles': {'returns': 'tuple[opaque,tuple[int,int],opaque]', 'raises': ['GridError'], 'pure': True},
                       '_filter_subtiles': {'returns': 'list[tuple[opt[tuple[int,int,int]],opt[tuple[real,real,real,real]],opaque]]', 'pure': True},
                       '_walk': {'raises': ['StopProcess']}, 'running': {'returns': 'bool', 'pure': True},
